@@ -124,11 +124,35 @@ def plant_stale_outputs(argv):
         STALE[argv[0]] += 1
 
 
+def relativize(argv):
+    """In a deterministic fifth of the runs the command is started from the directory of its first
+    file argument with that directory's files named relatively (as users do), otherwise with the
+    absolute paths the harness built."""
+    argv = [str(a) for a in argv]
+    key = "cwd," + ",".join(os.path.basename(a) for a in argv)
+    if int(hashlib.sha1(key.encode()).hexdigest()[:4], 16) % 5 != 0:
+        return argv, None
+    base = next((os.path.dirname(a) for a in argv[1:] if os.path.isabs(a) and os.path.isfile(a)), None)
+    if base is None:
+        return argv, None
+    out = []
+    for a in argv:
+        if os.path.isabs(a) and (a == base or a.startswith(base + os.sep)):
+            out.append(os.path.relpath(a, base))
+        else:
+            out.append(a)
+    old = os.getcwd()
+    os.chdir(base)
+    STALE["relative_path_runs"] += 1
+    return out, old
+
+
 def run_cli(argv, capture_stdout=True, stale=True):
     import gaftools.__main__ as gm
 
     if stale:
         plant_stale_outputs(argv)
+    argv, old_cwd = relativize(argv)
 
     root = logging.getLogger()
     old_handlers = list(root.handlers)
@@ -167,6 +191,8 @@ def run_cli(argv, capture_stdout=True, stale=True):
                           _where(e.__traceback__), tb=tbs[-1500:])
     finally:
         sys.stdout, sys.stderr = old_out, old_err
+        if old_cwd is not None:
+            os.chdir(old_cwd)
         for h in list(root.handlers):
             root.removeHandler(h)
         for h in old_handlers:
